@@ -11,12 +11,12 @@ for pid in props:
         checks.append({
             "property_id": pid,
             "quick_cmd": f"bin/check {pid} quick",
-            "thorough_cmd": f"bin/check {pid} thorough",
             "evidence_file": f"/verif/evidence/{pid}.json",
             "replay_cmd_template": "bin/replay {path}",
             "engine": "symgo",
             "level_claimed": {"category": "model_checking", "text": c["text"], "design_ref": c.get("design_ref", "DESIGN.md §3 " + pid)},
             "level_note": c["note"],
+            **({"thorough_cmd": f"bin/check {pid} thorough"} if c.get("thorough_ok") else {}),
             "technique": c.get("technique", "bounded symbolic execution of the real Go code (go/ssa -> SMT-LIB2, z3); solver verdict per path obligation; native replay of counterexamples"),
         })
     else:
